@@ -433,10 +433,11 @@ pub struct SrcIter {
     log: bool,
     sleep_us: u32,
     hold_workers: u32,
+    hold_pos: i64,
 }
 
 impl SrcIter {
-    pub fn new(items: Vec<E>, known: bool, spin: u32, log: bool, sleep_us: u32, hold_workers: u32) -> Self {
+    pub fn new(items: Vec<E>, known: bool, spin: u32, log: bool, sleep_us: u32, hold_workers: u32, hold_pos: i64) -> Self {
         SrcIter {
             items: items.into_iter(),
             known,
@@ -446,6 +447,7 @@ impl SrcIter {
             log,
             sleep_us,
             hold_workers,
+            hold_pos,
         }
     }
 }
@@ -458,6 +460,9 @@ impl Iterator for SrcIter {
         }
         for _ in 0..self.spin {
             std::hint::spin_loop();
+        }
+        if self.hold_pos >= 0 && self.pos as i64 == self.hold_pos {
+            sched::source_hold_point();
         }
         if self.hold_workers > 0 && self.pos == 0 {
             // hold the source (we are inside the turnstile) until that many workers have begun - they
